@@ -20,7 +20,7 @@ from common.util import Result, f2b, b2f, fl, err_kind
 from common import fibres as FB
 
 ID = 'C03'
-N = {'quick': 2400, 'thorough': 100000}
+N = {'quick': 2400, 'thorough': 40000}
 LEAN_MODULES = ['GnpyProofs.Props.C03']
 THEOREMS = [f'Gnpy.Gn.{t}' for t in (
     'weights', 'xpm_twice_spm', 'wgtF_self', 'wgtF_other', 'psi_nonneg', 'spm_formula', 'effLength_pos', 'term_nonneg',
